@@ -48,7 +48,7 @@ package leader
 //@ field kvElection.state              atomic write_under(mu) type string props C18 inv C18.state_domain: v == "INIT" || v == "CANDIDATE" || v == "LEADER" || v == "FOLLOWER" || v == "DEMOTED" || v == "STOPPED"
 //@ field kvElection.token              atomic write_under(mu) type string props C05,C01 inv C05.token_is_published: OwnTok(v) || (v == "" && !this.revSet)
 //@ field kvElection.leaderID           atomic type string props C18 onstore C18.leader_consistent_id: v == this.cfg.InstanceID || (held(this.mu) == 2 && !this.isLeader)
-//@ field kvElection.revision           atomic props C01,C05,C07,C18 inv C01.revision_is_own_write: Own(v) || (v == 0 && !this.revSet) onstore C05.revision_matches_token: held(this.mu) == 2 ==> PubTok(v) == this.token
+//@ field kvElection.revision           atomic props C01,C05,C07,C18,C13 inv C01.revision_is_own_write: Own(v) || (v == 0 && !this.revSet) onstore C05.revision_matches_token: held(this.mu) == 2 ==> PubTok(v) == this.token
 //@ field kvElection.observedRevision   atomic
 //@ field kvElection.lastHeartbeat      atomic type time.Time
 //@ field kvElection.lastTransition     atomic type time.Time
